@@ -89,6 +89,8 @@ pub struct State {
     pub delivery: Delivery,
     pub rot: usize,
     pub trace_reads: bool,
+    /// configure_hot_reloading keeps the sender but reports that hot-reloading is not supported
+    pub fail_configure: bool,
 }
 
 #[derive(Clone)]
@@ -141,6 +143,7 @@ impl MemSource {
                 delivery: Delivery::Rotate,
                 rot: 0,
                 trace_reads: true,
+                fail_configure: false,
             })),
             hot,
             label: "S",
@@ -391,7 +394,11 @@ impl Source for MemSource {
 
     fn configure_hot_reloading(&self, events: EventSender) -> Result<(), BoxedError> {
         if self.hot {
-            self.lock().sender = Some(events);
+            let mut g = self.lock();
+            g.sender = Some(events);
+            if g.fail_configure {
+                return Err("this source does not support hot-reloading after all".into());
+            }
             Ok(())
         } else {
             Err("not hot".into())
